@@ -56,6 +56,7 @@ class Extracted:
         self.tpl_line = 0
         self.derives = False
         self.stub = False
+        self.fields = None
 
 
 def parse_template(path):
@@ -163,6 +164,8 @@ def parse_template(path):
                         cur.replaces.append((allf, rule, frm, t))
                 else:
                     raise TemplateError('%s:%d bad replace' % (path, ln))
+            elif d.startswith('fields '):
+                cur.fields = d.split()[1:]
             elif d == 'stub':
                 cur.stub = True
             elif d.startswith('derives'):
@@ -369,6 +372,21 @@ def render_extract(ex, mode=None, canary=None, lenient=False):
             raise LostAnchor('%s: rewrite %s pattern occurs %d times: %r' % (ex.name, rule, n, frm))
         text = text.replace(frm, to)
         info['rewrites'].append({'rule': rule, 'from': frm, 'to': to, 'count': n})
+    if ex.kind == 'struct' and ex.fields is not None:
+        # R16: keep only the named fields (the others are not touched by any extracted function)
+        o = text.index('{')
+        c = text.rindex('}')
+        kept, seen = [], set()
+        for line in text[o + 1:c].split('\n'):
+            fm = re.match(r'\s*(?:pub(?:\([a-z]+\))?\s+)?([a-z_0-9]+)\s*:', line)
+            if fm and fm.group(1) in ex.fields:
+                kept.append(line)
+                seen.add(fm.group(1))
+        missing = [f for f in ex.fields if f not in seen]
+        if missing:
+            raise LostAnchor('struct %s: field(s) %s not found' % (ex.name, missing))
+        text = text[:o + 1] + '\n' + '\n'.join(kept) + '\n' + text[c:]
+        info['rewrites'].append({'rule': 'R16', 'from': 'struct ' + ex.name, 'to': 'fields kept: ' + ', '.join(ex.fields), 'count': 1})
     if ex.kind != 'fn':
         extra = ''
         if ex.derives:
